@@ -613,7 +613,10 @@ type worker struct {
 
 var theWorker *worker
 
-const hangTimeout = 3 * time.Second
+const (
+	hangCPUTicks = 200 // 2 s of CPU time spent on one payload of a few hundred bytes
+	hangWallCap  = 5 * time.Minute
+)
 
 func startWorker() *worker {
 	cmd := exec.Command(os.Args[0])
@@ -681,16 +684,47 @@ func parseGuarded(parser string, tu, skip, st bool, payload []byte) string {
 		}
 		ch <- strings.TrimRight(l, "\n")
 	}()
-	select {
-	case l := <-ch:
-		if l == "workererr" {
-			stopWorker()
+	// The watchdog counts the worker's CPU time, not wall-clock time: on a loaded machine a trivial parse may
+	// wait seconds for a CPU, while a spinning parser burns CPU whenever it runs.
+	cpu0 := procCPUTicks(w.cmd.Process.Pid)
+	start := time.Now()
+	tick := time.NewTicker(50 * time.Millisecond)
+	defer tick.Stop()
+	for {
+		select {
+		case l := <-ch:
+			if l == "workererr" {
+				stopWorker()
+			}
+			return l
+		case <-tick.C:
+			used := procCPUTicks(w.cmd.Process.Pid) - cpu0
+			if used >= hangCPUTicks || time.Since(start) > hangWallCap {
+				stopWorker()
+				return "hang"
+			}
 		}
-		return l
-	case <-time.After(hangTimeout):
-		stopWorker()
-		return "hang"
 	}
+}
+
+// procCPUTicks returns utime+stime of a process in clock ticks (100 Hz on Linux).
+func procCPUTicks(pid int) int64 {
+	b, err := os.ReadFile("/proc/" + strconv.Itoa(pid) + "/stat")
+	if err != nil {
+		return 0
+	}
+	// the command name (field 2) is in parentheses and may contain spaces
+	i := bytes.LastIndexByte(b, ')')
+	if i < 0 {
+		return 0
+	}
+	f := strings.Fields(string(b[i+1:]))
+	if len(f) < 13 {
+		return 0
+	}
+	u, _ := strconv.ParseInt(f[11], 10, 64)
+	st, _ := strconv.ParseInt(f[12], 10, 64)
+	return u + st
 }
 
 func doParse(c *h.Ctx, o popts, payload []byte) {
